@@ -103,14 +103,122 @@ pub proof fn lemma_no_raw(s: Seq<char>, i: int)
 /// one JSON string literal
 pub open spec fn jstr(s: Seq<char>) -> Seq<char> { seq!['"'] + jesc(s) + seq!['"'] }
 
-/// the text of a JSON array of the first n strings
-pub open spec fn jarray_body(strs: Seq<String>, n: int) -> Seq<char>
+/// the texts of a table
+pub open spec fn views(strs: Seq<String>) -> Seq<Seq<char>> { Seq::new(strs.len(), |i: int| strs[i]@) }
+/// the text of a JSON array of the first n strings (as the writer builds it: appending)
+pub open spec fn jarray_body_v(strs: Seq<Seq<char>>, n: int) -> Seq<char>
     decreases n
 {
     if n <= 0 { Seq::empty() }
-    else if n == 1 { jstr(strs[0]@) }
-    else { jarray_body(strs, n - 1) + seq![','] + jstr(strs[n - 1]@) }
+    else if n == 1 { jstr(strs[0]) }
+    else { jarray_body_v(strs, n - 1) + seq![','] + jstr(strs[n - 1]) }
 }
+pub open spec fn jarray_body(strs: Seq<String>, n: int) -> Seq<char> { jarray_body_v(views(strs), n) }
+
+/// scanning an escaped text followed by a quote gives the text back and stops after the quote
+pub proof fn lemma_scan(pre: Seq<char>, x: Seq<char>, post: Seq<char>)
+    ensures jscan(pre + jesc(x) + seq!['"'] + post, pre.len() as int) == Some((x, (pre.len() + jesc(x).len() + 1) as int)),
+    decreases x.len()
+{
+    let s = pre + jesc(x) + seq!['"'] + post;
+    let i = pre.len() as int;
+    if x.len() == 0 {
+        assert(jesc(x) =~= Seq::<char>::empty());
+        assert(s[i] == '"');
+    } else {
+        let c = x[0];
+        let rest = x.skip(1);
+        let e = jesc_char(c);
+        assert(jesc(x) == e + jesc(rest));
+        let pre2 = pre + e;
+        assert(pre2 + jesc(rest) + seq!['"'] + post =~= s);
+        lemma_scan(pre2, rest, post);
+        assert(seq![c] + rest =~= x);
+        assert(forall|k: int| 0 <= k < e.len() ==> s[i + k] == e[k]);
+        if c == '"' || c == '\\' {
+            assert(s[i] == '\\' && s[i + 1] == c);
+        } else if (c as int) < 0x20 {
+            lemma_hex((c as int) / 16);
+            lemma_hex((c as int) % 16);
+            assert(s[i] == '\\' && s[i + 1] == 'u' && s[i + 2] == '0' && s[i + 3] == '0');
+            assert(s[i + 4] == hex_digit_spec((c as int) / 16) && s[i + 5] == hex_digit_spec((c as int) % 16));
+            let v = 0 * 4096 + 0 * 256 + ((c as int) / 16) * 16 + (c as int) % 16;
+            assert(v == c as int);
+            assert(v as char == c);
+        } else {
+            assert(s[i] == c);
+        }
+    }
+}
+
+/// elements k..n joined by commas, then the closing bracket (as a parser consumes it: from the front)
+pub open spec fn jtail(strs: Seq<Seq<char>>, k: int, n: int) -> Seq<char>
+    decreases n - k
+{
+    if k >= n - 1 { jstr(strs[k]) + seq![']'] } else { jstr(strs[k]) + seq![','] + jtail(strs, k + 1, n) }
+}
+pub open spec fn sep_tail(strs: Seq<Seq<char>>, m: int, n: int) -> Seq<char> {
+    if m >= n { seq![']'] } else { seq![','] + jtail(strs, m, n) }
+}
+pub proof fn lemma_body_tail(strs: Seq<Seq<char>>, m: int, n: int)
+    requires 1 <= m <= n <= strs.len(),
+    ensures jarray_body_v(strs, m) + sep_tail(strs, m, n) =~= jtail(strs, 0, n),
+    decreases m
+{
+    if m == 1 {
+    } else {
+        lemma_body_tail(strs, m - 1, n);
+        // sep_tail(m-1) = ',' + jstr(s[m-1]) + sep_tail(m)
+        assert(sep_tail(strs, m - 1, n) =~= seq![','] + jstr(strs[m - 1]) + sep_tail(strs, m, n));
+        assert(jarray_body_v(strs, m) =~= jarray_body_v(strs, m - 1) + seq![','] + jstr(strs[m - 1]));
+    }
+}
+pub proof fn lemma_elems(pre: Seq<char>, strs: Seq<Seq<char>>, k: int, n: int)
+    requires 0 <= k < n <= strs.len(),
+    ensures jelems(pre + jtail(strs, k, n), pre.len() as int) == Some(strs.subrange(k, n)),
+    decreases n - k
+{
+    let s = pre + jtail(strs, k, n);
+    let i = pre.len() as int;
+    let x = strs[k];
+    let after = if k >= n - 1 { seq![']'] } else { seq![','] + jtail(strs, k + 1, n) };
+    assert(jtail(strs, k, n) =~= seq!['"'] + jesc(x) + seq!['"'] + after);
+    let pre2 = pre + seq!['"'];
+    assert(s =~= pre2 + jesc(x) + seq!['"'] + after);
+    lemma_scan(pre2, x, after);
+    let j = (pre2.len() + jesc(x).len() + 1) as int;
+    assert(s[i] == '"');
+    assert(jscan(s, i + 1) == Some((x, j)));
+    assert(s[j] == after[0]);
+    if k >= n - 1 {
+        assert(j + 1 == s.len());
+        assert(strs.subrange(k, n) =~= seq![x]);
+    } else {
+        let pre3 = pre2 + jesc(x) + seq!['"'] + seq![','];
+        assert(s =~= pre3 + jtail(strs, k + 1, n));
+        lemma_elems(pre3, strs, k + 1, n);
+        assert(pre3.len() == j + 1);
+        assert(strs.subrange(k, n) =~= seq![x] + strs.subrange(k + 1, n));
+    }
+}
+/// C11: the text the writer builds for n strings parses as a JSON array of exactly those strings
+pub proof fn lemma_array_roundtrip(strs: Seq<Seq<char>>, n: int)
+    requires 0 <= n <= strs.len(),
+    ensures jarray(seq!['['] + jarray_body_v(strs, n) + seq![']']) == Some(strs.subrange(0, n)),
+{
+    let s = seq!['['] + jarray_body_v(strs, n) + seq![']'];
+    if n == 0 {
+        assert(s =~= seq!['[', ']']);
+        assert(strs.subrange(0, 0) =~= Seq::<Seq<char>>::empty());
+    } else {
+        lemma_body_tail(strs, n, n);
+        assert(s =~= seq!['['] + jtail(strs, 0, n));
+        lemma_elems(seq!['['], strs, 0, n);
+        assert(jstr(strs[0]).len() >= 2);
+        assert(s.len() > 2);
+    }
+}
+
 
 // R2: the table is `&[Rc<str>]` in the repository; an immutable owned string either way
 pub struct TranslationsFormatter<'a> {
